@@ -73,7 +73,7 @@ def site_of(exc):
     return "?", ""
 
 
-def outcome_of_parse(raw, ser=None):
+def outcome_of_parse(raw, ser=None, reparse=True):
     """run the real Serializer.unserialize on one raw structure; -> (outcome string, detail)"""
     ser = ser or RawSerializer()
     ser.raw.objs = [raw]
@@ -91,4 +91,15 @@ def outcome_of_parse(raw, ser=None):
         mar = wval.enc(m.marshal(), sort=True)
     except Exception as e:  # noqa: BLE001
         mar = "marshal-raises:" + type(e).__name__
-    return "ok %s %s %s" % (type(m).__name__, mar, wval.enc(fields_of(m), sort=True)), {}
+    det = {}
+    # C08 "re-marshalled form is equivalent to the input": parse the re-marshalled message again
+    if not mar.startswith("marshal-raises") and reparse:
+        ser.raw.objs = [m.marshal()]
+        try:
+            m2 = ser.unserialize(b"")[0]
+            det["reparse"] = "ok " + wval.enc(fields_of(m2), sort=True)
+        except BaseException as e:  # noqa: BLE001
+            if isinstance(e, (KeyboardInterrupt, SystemExit)):
+                raise
+            det["reparse"] = "err " + type(e).__name__
+    return "ok %s %s %s" % (type(m).__name__, mar, wval.enc(fields_of(m), sort=True)), det
